@@ -18,7 +18,7 @@ ASSUME TLCSet(4, {})
 ASSUME TLCSet(5, {})
 
 VARIABLES l, obs, hasObs, tid
-tvars == <<cfg, up, ceOn, nin, cein, loc, vrfs, mem, wait, eor, deadline, now, wN1, wN2, wCE, l, obs, hasObs, tid>>
+tvars == <<cfg, up, ceOn, nin, cein, loc, vrfs, mem, wait, eor, deadline, now, wN1, wN2, wN3, wCE, l, obs, hasObs, tid>>
 
 NoObs == [none |-> TRUE]
 TraceInit == MInit([defer |-> 0, addpath |-> FALSE]) /\ l = 1 /\ obs = NoObs /\ hasObs = FALSE /\ tid = 0
@@ -28,7 +28,7 @@ Row == Trace[l]
 TakeObs == obs' = Row.obs /\ hasObs' = TRUE /\ UNCHANGED tid
 
 OCe(s)   == {[x |-> s[i].x, v |-> s[i].v] : i \in 1..Len(s)}
-NormR(r) == [rd |-> r.rd, x |-> r.x, label |-> r.label, rts |-> SeqToSet(r.rts), v |-> r.v]
+NormR(r) == [src |-> r.src, rd |-> r.rd, x |-> r.x, label |-> r.label, rts |-> SeqToSet(r.rts), v |-> r.v, lp |-> r.lp]
 NormM(m) == [as |-> m.as, rt |-> m.rt, id |-> m.id]
 NormV(w) == [name |-> w.name, rd |-> w.rd, label |-> w.label, imp |-> SeqToSet(w.imp), exp |-> SeqToSet(w.exp)]
 
@@ -37,7 +37,7 @@ TReset == /\ IsEvent("Reset")
           /\ up' = [p \in PeerNames |-> FALSE] /\ ceOn' = FALSE
           /\ nin' = {} /\ cein' = {} /\ loc' = {} /\ vrfs' = {} /\ mem' = {}
           /\ wait' = FALSE /\ eor' = FALSE /\ deadline' = 0 /\ now' = 0
-          /\ wN1' = {} /\ wN2' = {} /\ wCE' = {}
+          /\ wN1' = {} /\ wN2' = {} /\ wN3' = {} /\ wCE' = {}
           /\ obs' = NoObs /\ hasObs' = FALSE /\ tid' = Row.tid
 
 TUp     == IsEvent("Up") /\ MUp(Row.p) /\ TakeObs
@@ -73,12 +73,12 @@ OVrfs(s) == {[name |-> s[i].name, rd |-> s[i].rd, imp |-> SeqToSet(s[i].imp), ex
 OView(s) == {[rd |-> s[i].rd, x |-> s[i].x, v |-> s[i].v, src |-> s[i].src] : i \in 1..Len(s)}
 
 (* harness sanity, NOT property verdicts *)
-Gap_Sessions == hasObs => /\ \A p \in {"N1", "N2"} : (obs.sess[p] = "up") = up[p]
+Gap_Sessions == hasObs => /\ \A p \in {"N1", "N2", "N3"} : (obs.sess[p] = "up") = up[p]
                           /\ (obs.sess["CE"] = "up") = up["CE"]
 Gap_Clock    == hasObs => Trace[l - 1].t = now
 Gap_Junk     == hasObs => \A p \in PeerNames : obs.junk[p] = 0
 (* the VPN routes of N2 reached the global table as the schedule says *)
-Gap_GlobalVpn == hasObs => {e \in OGvpn(obs.gvpn) : e.src \notin {"CE", "local"}} = {r \in VpnRoutes : r.src = "N2"}
+Gap_GlobalVpn == hasObs => {e \in OGvpn(obs.gvpn) : e.src \notin {"CE", "local"}} = LearnedPaths
 
 (* C17: ListVrf = the configured VRFs *)
 C17_ListVrf ==
@@ -106,25 +106,27 @@ C17_CeComplete == (hasObs /\ up["CE"]) => CeComplete(OCe(obs.ce))
    in the global VPN table and towards the VPN neighbour *)
 C17_VrfExport ==
   hasObs => /\ {e \in OGvpn(obs.gvpn) : e.src \in {"CE", "local"}} = VrfOriginatedExport
-            /\ up["N2"] => OVpn(obs.vpn["N2"]) = {Wire(r) : r \in VrfOriginatedExport}
+            /\ \A p \in PEs : up[p] => \A r \in VrfOriginatedExport :
+                   (r \in VpnRoutes /\ MayAdv(p, r)) => Wire(r) \in OVpn(obs.vpn[p])
 
 (* C17: towards the RTC neighbour exactly the routes it has a membership for; while the RTC
    End-of-RIB wait lasts only "nothing else"; a VPN neighbour without RTC gets everything *)
 C17_RtcExact ==
   hasObs => /\ up["N1"] => IF wait THEN OVpn(obs.vpn["N1"]) \subseteq RtcExport("N1")
                                    ELSE OVpn(obs.vpn["N1"]) = RtcExport("N1")
-            /\ up["N2"] => OVpn(obs.vpn["N2"]) = AllExport("N2")
+            /\ \A p \in PEs : up[p] => OVpn(obs.vpn[p]) = AllExport(p)
 
 (* known-finding variants: the code behaves as the mechanism with the known defects *)
 C17_RtcExact_KF ==
   hasObs => /\ up["N1"] => OVpn(obs.vpn["N1"]) = wN1
-            /\ up["N2"] => OVpn(obs.vpn["N2"]) = AllExport("N2")
+            /\ \A p \in PEs : up[p] => OVpn(obs.vpn[p]) = AllExport(p)
 C17_CeExport_KF == (hasObs /\ up["CE"]) => OCe(obs.ce) = wCE /\ Len(obs.ce) = Cardinality(wCE)
 C17_CeComplete_KF == C17_CeExport_KF
 
 (* informational conformance: code = mechanism model (with the Defects of the cfg) *)
 Conf_Views == hasObs => /\ up["N1"] => OVpn(obs.vpn["N1"]) = wN1
                         /\ up["N2"] => OVpn(obs.vpn["N2"]) = wN2
+                        /\ up["N3"] => OVpn(obs.vpn["N3"]) = wN3
                         /\ up["CE"] => OCe(obs.ce) = wCE
 
 ---------------------------------------------------------------------------
